@@ -1022,3 +1022,22 @@ CASES += [
 CASES += [
  dict(id='mut-colour-edge-joins-vertex-with-itself', kind='fire', file=G, old='new_edges.push((v1.clone(), v2.clone()));', new='new_edges.push((v2.clone(), v2.clone()));', expect={'C18': 'product-graph edge ends'}, control=False),
 ]
+CASES += [
+ # third mutation campaign (swapped arguments, thinned iterations, constant conditions)
+ dict(id='mut-graph-candidates-skip-first-partner', kind='fire', file=G, old='                for v2 in vertices.iter() {\n                    edges.push((v1.clone(), v2.clone()));', new='                for v2 in vertices.iter().skip(1) {\n                    edges.push((v1.clone(), v2.clone()));', expect={'C18': 'complete walk'}, control=False),
+ dict(id='mut-parse-tree-position-from-the-end', kind='fire', file=PIO, old='''                            self.nodes
+                                .iter()
+                                .position(|n| n == subtree)''', new='''                            self.nodes
+                                .iter()
+                                .rev()
+                                .position(|n| n == subtree)''', expect={'C14': 'target of an edge'}, control=False),
+ dict(id='mut-colour-outer-loop-reversed', kind='fire', file=G, old='    for (i, v1) in vertices.iter().enumerate() {\n        if let Some(vertices) = vertices.get((i + 1)..) {\n            for v2 in vertices.iter() {\n                let c1', new='    for (i, v1) in vertices.iter().rev().enumerate() {\n        if let Some(vertices) = vertices.get((i + 1)..) {\n            for v2 in vertices.iter() {\n                let c1', expect={'C18': 'complete walk'}, control=False),
+ dict(id='mut-tte-search-skips-first-variant', kind='fire', file='src/truth_table.rs', old='''        Self::variants()
+            .iter()
+            .find(''', new='''        Self::variants()
+            .iter()
+            .skip(1)
+            .find(''', expect={'C10': 'list of variants'}, control=False),
+ dict(id='mut-clique-counting-list-skips-a-vertex', kind='fire', file=C, old='vertices.iter().cloned().collect::<Vec<String>>().join(", "),', new='vertices.iter().skip(1).cloned().collect::<Vec<String>>().join(", "),', expect={'C16': 'complete walk'}, control=False),
+ dict(id='mut-listing-printed-unasked', kind='fire', file=M, old='    if args.vars {', new='    if true {', expect={'C10': 'only on request'}, control=False),
+]
